@@ -17,6 +17,10 @@ tvars == <<test, trial, l, bad, seen>>
 ToElem(a) == [t0 |-> a[1], t1 |-> a[2], x0 |-> a[3], x1 |-> a[4]]
 Has(r, f) == f \in DOMAIN r
 
+\* on a closed curve a disjoint pair equally far both ways round is a tie: with irrational parameters rounding decides
+\* which of the two (equivalent) mirrored product rules the code takes
+TieFree(P) == {IF p.rule \in {LogMX, LogMY} /\ Closed /\ p.c - p.b = L - p.d + p.a THEN [p EXCEPT !.rule = "loglog_tie"] ELSE p : p \in P}
+
 Failed(r, te, tr) ==
      (IF Has(r, "cls") /\ (r.cls[1] # SpaceRel(te, tr) \/ r.cls[2] # AllenRel(te, tr)) THEN {"d:class-mislabelled"} ELSE {})
   \cup (IF Has(r, "dev") /\ r.dev > 1000000 THEN {"tolerance"} ELSE {})
@@ -35,8 +39,8 @@ Failed(r, te, tr) ==
               THEN {} ELSE {"d:split-pieces-mislabelled"})
         ELSE {})
   \cup (IF Has(r, "decomp") /\ ~r.decomp_skip
-        THEN (IF {[a |-> p[1], b |-> p[2], c |-> p[3], d |-> p[4], rule |-> p[5]] : p \in {r.decomp[i] : i \in 1..Len(r.decomp)}}
-                  = Decomp(te, tr) THEN {} ELSE {"d:panel-decomposition"})
+        THEN (IF TieFree({[a |-> p[1], b |-> p[2], c |-> p[3], d |-> p[4], rule |-> p[5]] : p \in {r.decomp[i] : i \in 1..Len(r.decomp)}})
+                  = TieFree(Decomp(te, tr)) THEN {} ELSE {"d:panel-decomposition"})
         ELSE {})
 
 TInit == test = [t0 |-> 0, t1 |-> 1, x0 |-> 0, x1 |-> 1] /\ trial = test /\ l = 1 /\ bad = {} /\ seen = {}
